@@ -338,8 +338,16 @@ func ParseSPSNALUnit(data []byte) (*SPS, error) {
 			BottomOffset: uint32(r.ReadExpGolomb()),
 		}
 	}
-	sps.BitDepthLumaMinus8 = byte(r.ReadExpGolomb())
-	sps.BitDepthChromaMinus8 = byte(r.ReadExpGolomb())
+	// values shall be in the range of 0 to 8, inclusive
+	bitDepthLumaMinus8 := r.ReadExpGolomb()
+	bitDepthChromaMinus8 := r.ReadExpGolomb()
+	if bitDepthLumaMinus8 > 8 || bitDepthChromaMinus8 > 8 {
+		// Must not be truncated to a byte: the bit depths give the entry size in the SCC extension
+		return nil, fmt.Errorf("bit_depth_luma_minus8 %d or bit_depth_chroma_minus8 %d is not in range 0 to 8",
+			bitDepthLumaMinus8, bitDepthChromaMinus8)
+	}
+	sps.BitDepthLumaMinus8 = byte(bitDepthLumaMinus8)
+	sps.BitDepthChromaMinus8 = byte(bitDepthChromaMinus8)
 	sps.Log2MaxPicOrderCntLsbMinus4 = byte(r.ReadExpGolomb())
 	sps.SubLayerOrderingInfoPresentFlag = r.ReadFlag()
 	startValue := sps.MaxSubLayersMinus1
